@@ -8,6 +8,7 @@
 import re
 from .framework import RuleResult
 from .instwalk import InstDB, signature_of
+from .mir import Fn, disc_switches, switch_edges
 
 EXPLANATION = ("Instantiation walk from every arithmetic registry row with an integer/decimal signature; in the monomorphic kernel bodies "
                "(generic MIR re-read under the row's substitution, callees re-resolved) every integer operation on SQL values is classified. "
@@ -130,6 +131,179 @@ def exemption(rec, construct, ops, site=None):
     return None
 
 
+
+# ---------------------------------------------------------------------------------------------
+# C12-ERRPATH / C12-ERRSTATE / C12-DECFIT: the checked operation's failure is turned into an error
+OPT_INT = re.compile(r"^std::option::Option<(?:[iu](?:8|16|32|64|128)|glaredb_core::arrays::scalar::interval::Interval)>$")
+SINKS = ("arith::checked::ArithErrorState::set_overflow", "arith::checked::ArithErrorState::set_div_error",
+         "arith::checked::ArithErrorState::set_error", "glaredb_error::DbError::new", "FromResidual>::from_residual",
+         "std::ops::FromResidual::from_residual")
+CHECKED_SRC = re.compile(r"checked_\w+$|_checked$|NumCast>::from$|Option::<T>::and_then$|::checked_abs$|FnOnce>::call_once$|FnOnce::call_once$|Fn>::call$|Fn::call$|FnMut::call_mut$")
+ERRPATH_EXEMPT = {
+    "glaredb_core::functions::scalar::builtin::numeric::gcd::signed_gcd":
+        "the divisor is non-zero by the loop condition, so None from checked_rem means MIN % -1, whose remainder is 0 (value, not a failure)",
+    "glaredb_core::functions::scalar::builtin::arith::checked::CheckedArith>::rem_checked":
+        "None with a non-zero divisor is MIN % -1 = 0; the zero-divisor None is returned to the caller unchanged",
+}
+
+
+def _none_edge_ok(fn, sb, t):
+    """from the None (discriminant 0) edge of switch `t` at block sb: no normal return is reachable without a sink"""
+    tgt = [b for v, b in switch_edges(t) if v == 0]
+    if not tgt:
+        # `if let Some(..)`-shape: None is the otherwise edge
+        tgt = [b for v, b in switch_edges(t) if v is None]
+    sink_blocks = {c.bb for c in fn.calls() if any(k in c.name for k in SINKS)}
+    bad = []
+    for start in tgt:
+        if start in sink_blocks:
+            continue
+        reach = fn.reach(start, avoid_blocks=list(sink_blocks), threaded=False) | {start}
+        rets = [b for b in reach if fn.term(b)[0] == "ret"]
+        if rets:
+            bad.append((start, rets[0]))
+    return bad
+
+
+def rule_errpath(facts, db, rows):
+    r = RuleResult("C12-ERRPATH", "in every arithmetic kernel instance, the None outcome of a checked integer operation reaches an error "
+                   "(ArithErrorState::set_*, DbError, `?`) before the kernel returns; it is never replaced by a value", floor=60)
+    seen = set()
+    for row in rows:
+        for rec in db.reachable(row, within=lambda rec: KERNEL_PREFIX in rec["id"] and any(m in rec["id"] for m in MODULES + ("::functions::aggregate::simple", ))):
+            if rec["key"] in seen:
+                continue
+            seen.add(rec["key"])
+            fn = Fn(rec)
+            returns_option = fn.locals[0].startswith("std::option::Option<")
+            for sb, pl, t in disc_switches(fn):
+                ty = fn.locals[pl[0]].replace("&", "").strip() if not pl[1] else ""
+                if not OPT_INT.match(ty):
+                    continue
+                # only Options that come from a checked arithmetic operation (directly, through and_then, or through a local helper /
+                # closure returning the Option); `Iterator::next` and friends are not arithmetic outcomes
+                o = fn.origin(["c", [pl[0], []]], at=sb)
+                if o[0] != "call" or not CHECKED_SRC.search(o[1].name):
+                    continue
+                r.functions.add(rec["key"])
+                ex = next((why for k, why in ERRPATH_EXEMPT.items() if k in rec["id"]), None)
+                if ex:
+                    if not any(e[0] == rec["id"] for e in r.exemptions):
+                        r.exempt(rec["id"], ex)
+                    continue
+                bad = [] if returns_option else _none_edge_ok(fn, sb, t)
+                r.inst({"fn": rec["id"].replace("glaredb_core::functions::", ""), "option": ty.replace("std::option::", ""), "line": t[5]}, not bad)
+                for start, ret in bad:
+                    r.violate(rec["id"], f"None-edge:{ty.replace('std::option::', '')}",
+                              "the None outcome of a checked integer operation reaches the kernel's normal return without recording an error "
+                              "(overflow / division by zero is silently replaced by a value or NULL)", rec["file"], t[5])
+    return r
+
+
+def rule_errstate(facts):
+    r = RuleResult("C12-ERRSTATE", "every function that creates an ArithErrorState returns its verdict: each path from the creation to a "
+                   "normal return passes ArithErrorState::into_result (or an error return); into_result maps a recorded error to Err", floor=10)
+    creators = 0
+    for rec in facts.fns_matching(lambda i: "glaredb_core::functions::" in i):
+        fn = Fn(rec)
+        created = [c for c in fn.calls() if c.name.endswith("::default") and "ArithErrorState" in (fn.locals[c.dst[0]] if not c.dst[1] else "")]
+        created += [("agg", b) for b, i, pl, rv, ln in fn.assigns() if rv[0] == "agg" and rv[1][0] == "adt" and rv[1][1].endswith("checked::ArithErrorState")
+                    and not rec["id"].endswith("ArithErrorState as std::default::Default>::default")]
+        if not created:
+            continue
+        creators += 1
+        r.functions.add(fn.id)
+        sinks = {c.bb for c in fn.calls() if c.name.endswith("ArithErrorState::into_result") or "from_residual" in c.name}
+        for c in created:
+            b0 = c[1] if isinstance(c, tuple) else c.bb
+            reach = fn.reach(b0, avoid_blocks=list(sinks), threaded=False)
+            rets = [b for b in reach if fn.term(b)[0] == "ret"]
+            r.inst({"fn": fn.id.replace("glaredb_core::functions::", ""), "state_created_at": rec["line"]}, not rets)
+            if rets:
+                r.violate(fn.id, "ArithErrorState-dropped", "an ArithErrorState is created but a normal return is reachable without into_result(): "
+                          "failures recorded by the kernel closure are discarded and the rows come back as NULL", rec["file"], fn.term(rets[0])[1] if len(fn.term(rets[0])) > 1 else rec["line"])
+    # the helper itself: into_result → Err on the Some edge; set_error stores Some
+    recs = facts.fns_matching(lambda i: i.endswith("arith::checked::ArithErrorState::into_result"))
+    if not recs:
+        r.missing_anchor("ArithErrorState::into_result")
+    else:
+        fn = Fn(recs[0])
+        r.functions.add(fn.id)
+        sw = [(sb, pl, t) for sb, pl, t in disc_switches(fn) if "ArithError" in fn.locals[pl[0]]]
+        errs = {b for b, i, pl, rv, ln in fn.assigns() if rv[0] == "agg" and rv[1][0] == "adt" and rv[1][1].endswith("result::Result") and rv[1][2] == "Err"}
+        oks = {b for b, i, pl, rv, ln in fn.assigns() if rv[0] == "agg" and rv[1][0] == "adt" and rv[1][1].endswith("result::Result") and rv[1][2] == "Ok"}
+        ok = bool(sw) and bool(errs)
+        if ok:
+            sb, pl, t = sw[0]
+            for v, tgt in switch_edges(t):
+                reach = fn.reach(tgt, avoid_blocks=[sb], threaded=False) | {tgt}
+                if v == 0 and reach & errs:
+                    ok = False          # None → Err ?!
+                if v not in (0, None) and reach & oks:
+                    ok = False          # Some(error) → Ok
+                if v is None and len(t[2]) < 2 and reach & oks:
+                    ok = False
+        r.inst({"fn": "ArithErrorState::into_result", "shape": "None→Ok, Some(e)→Err"}, ok)
+        if not ok:
+            r.violate(fn.id, "into_result-shape", "into_result does not map a recorded arithmetic error to Err on every path", recs[0]["file"], recs[0]["line"])
+    recs = facts.fns_matching(lambda i: i.endswith("arith::checked::ArithErrorState::set_error"))
+    if not recs:
+        r.missing_anchor("ArithErrorState::set_error")
+    else:
+        fn = Fn(recs[0])
+        def _is_some(rv, b):
+            if rv[0] == "agg" and rv[1][0] == "adt" and rv[1][2] == "Some":
+                return True
+            if rv[0] == "use" and rv[1][0] in ("c", "m"):
+                o = fn.origin(rv[1], at=b)
+                return o[0] == "rv" and o[1][0] == "agg" and o[1][1][0] == "adt" and o[1][1][2] == "Some"
+            return False
+        stores = [1 for b, i, pl, rv, ln in fn.assigns() if pl[1] and any(isinstance(p, list) and p[0] == "f" and p[1] == "error" for p in pl[1])
+                  and _is_some(rv, b)]
+        r.inst({"fn": "ArithErrorState::set_error", "shape": "stores Some(error)"}, bool(stores))
+        if not stores:
+            r.violate(fn.id, "set_error-shape", "set_error does not store the error", recs[0]["file"], recs[0]["line"])
+    if creators < 10:
+        r.notes.append(f"only {creators} creators")
+    return r
+
+
+def rule_decfit(facts):
+    r = RuleResult("C12-DECFIT", "decimal + - * write a result only after the precision check of the output type passed "
+                   "(decimal_result_fits) — a precision clamped to the type maximum cannot be exceeded silently", floor=3)
+    for name in ("add::DecimalAdd", "sub::DecimalSub", "mul::DecimalMul"):
+        recs = facts.fns_matching(lambda i, n=name: f"arith::{n}<D> as" in i and i.endswith("::execute::{closure#0}"))
+        if not recs:
+            r.missing_anchor(f"{name}::execute closure")
+            continue
+        rec = recs[0]
+        fn = Fn(rec)
+        r.functions.add(fn.id)
+        puts = [c for c in fn.calls() if c.name.endswith("PutBuffer::<'_, M>::put") or c.name.endswith("::put") and "PutBuffer" in c.name]
+        fits = [c for c in fn.calls() if "Fn::call" in c.decl or "Fn>::call" in c.name or "decimal_result_fits" in c.name]
+        ok = bool(puts) and bool(fits)
+        for p in puts:
+            dom = [c for c in fits if fn.dominates(c.bb, p.bb)]
+            if not dom:
+                ok = False
+                continue
+            # the put must lie on the `true` side of the fits result
+            good = False
+            for c in dom:
+                for b in range(fn.n):
+                    t = fn.term(b)
+                    if t[0] == "switch" and t[1][0] in ("c", "m") and t[1][1] == c.dst and fn.dominates(b, p.bb):
+                        false_tgts = [tg for v, tg in switch_edges(t) if v == 0]
+                        if all(p.bb not in (fn.reach(ft, avoid_blocks=[b], threaded=False) | {ft}) for ft in false_tgts):
+                            good = True
+            ok = ok and good
+        r.inst({"kernel": name, "puts": len(puts), "fits_calls": len(fits)}, ok)
+        if not ok:
+            r.violate(fn.id, "put-without-precision-check", "a decimal result is written without the output-precision check on the path "
+                      "(a result beyond the clamped precision is returned silently)", rec["file"], rec["line"])
+    return r
+
+
 def run(ctx):
     facts = ctx["facts"]
     consts = {c["id"]: c for c in facts.records("const")}
@@ -174,7 +348,12 @@ def run(ctx):
             r.violate(fn, c, f"{d if 'checked' in d or 'assert' in d else 'raw integer operator ' + d} in the kernel of `{fname}` at {c.split('::')[0]}: "
                       "overflow / division by zero panics (worker abort) or wraps instead of raising an error", rec["file"], ln)
     r.notes.append(f"{nrows} integer/decimal rows of {len(rows)} arithmetic rows walked")
-    return [r]
+    int_rows = []
+    for row in rows:
+        sig = signature_of(row, consts)
+        if sig and ((set(sig[0] or []) | {sig[2]} | ({sig[1]} if sig[1] else set())) & INT_IDS):
+            int_rows.append(row)
+    return [r, rule_errpath(facts, db, int_rows), rule_errstate(facts), rule_decfit(facts)]
 
 
 CLAIM = {
